@@ -133,3 +133,33 @@ func validateTrace(module, cfg, trace string, scratch string) (TLCRun, int) {
 	}
 	return r, r.Depth + 1
 }
+
+// runApalache runs `apalache-mc check` on a module of the spec directory; ok = "The outcome is: NoError".
+func runApalache(module string, args []string, timeout time.Duration, scratch string) (ok bool, out string, wall float64, infra error) {
+	od, err := os.MkdirTemp(scratch, "apalache")
+	if err != nil {
+		return false, "", 0, err
+	}
+	defer os.RemoveAll(od)
+	a := append([]string{"check", "--out-dir=" + od}, args...)
+	a = append(a, module)
+	ctx, cancel := context.WithTimeout(context.Background(), timeout)
+	defer cancel()
+	cmd := exec.CommandContext(ctx, "apalache-mc", a...)
+	cmd.Dir = specDir
+	var buf bytes.Buffer
+	cmd.Stdout, cmd.Stderr = &buf, &buf
+	t0 := time.Now()
+	rerr := cmd.Run()
+	out, wall = buf.String(), time.Since(t0).Seconds()
+	if ctx.Err() != nil {
+		return false, out, wall, fmt.Errorf("apalache timeout after %v on %s %v", timeout, module, args)
+	}
+	if strings.Contains(out, "The outcome is: NoError") {
+		return true, out, wall, nil
+	}
+	if strings.Contains(out, "The outcome is: Error") {
+		return false, out, wall, nil
+	}
+	return false, out, wall, fmt.Errorf("apalache did not finish (%v): %s", rerr, tail(out, 15))
+}
